@@ -288,19 +288,10 @@ func writeBodyStream(resp *protocol.Response, w network.Writer, sendBody bool) (
 		}
 	}()
 
+	// A stream of unknown length is sent chunked, also when it is an *io.LimitedReader: its N only bounds the
+	// stream from above ("at most N bytes"), so announcing N as Content-Length breaks the framing of every
+	// stream that ends before the limit.
 	contentLength := resp.Header.ContentLength()
-	if contentLength < 0 {
-		lrSize := ext.LimitedReaderSize(resp.BodyStream())
-		if lrSize >= 0 {
-			contentLength = int(lrSize)
-			if int64(contentLength) != lrSize {
-				contentLength = -1
-			}
-			if contentLength >= 0 {
-				resp.Header.SetContentLength(contentLength)
-			}
-		}
-	}
 	if contentLength >= 0 {
 		if err = WriteHeader(&resp.Header, w); err == nil && sendBody {
 			if resp.ImmediateHeaderFlush {
